@@ -49,6 +49,28 @@ reg('C02', 'exploration',
     'GNU make by C06); no real ninja binary exists in this sandbox.',
     'DESIGN.md §2 C02')
 
+reg('C03', 'exploration',
+    'observed rebuild sets (recording stub tool chain under real GNU make / the reference Ninja '
+    'evaluator) compared with the closure computed from an independent model of the generated '
+    'script, over single-file touch histories',
+    'Random build graphs are rendered to build.bfg; after a clean default build, a no-op build, a '
+    'build of everything, one touch per input/intermediate file and clean+build of aliases/tests, '
+    'the set of steps that really executed must equal the model upstream/downstream closure '
+    '(missing = lost dependency, extra = spurious dependency, twice = two producers).',
+    'Trusted: vf/gen/dag.py Model; stubs; refninja for the Ninja half. Ninja legitimately '
+    're-runs a deps=gcc edge whose output was touched (excluded, counted); symlink/hardlink '
+    'copies share their source mtime (their re-run is optional, never required).',
+    'DESIGN.md §2 C03')
+reg('C06', 'translation_validation',
+    'differential execution: the same generated project configured for Make and Ninja, both '
+    'build files executed with recording stubs, records and compile_commands.json compared '
+    'step by step modulo documented differences',
+    'Per generated script and option set: same configure verdict, same steps, same products, '
+    'same argv/cwd/env per step, same rebuild sets after touching a file, every '
+    'compile_commands.json entry equal to what really ran, both compdbs equal.',
+    'Trusted: refninja; whitelist of documented differences (Ninja colour flag, leading ./).',
+    'DESIGN.md §2 C06')
+
 NOT_APPLICABLE = {}
 
 ALL = ['C%02d' % i for i in range(1, 21)]
